@@ -338,6 +338,10 @@ class _ManifoldDynamicsService(_DynamicsServiceBase):
         Tuple[float, float, List[np.ndarray], List[np.ndarray], int, int]
             The manifold result.
         """
+        if integration_fraction < 0:
+            # The time direction is the branch's (stable: backward, unstable: forward), not the sign of the span.
+            raise ValueError("integration_fraction must be non-negative.")
+
         mu = self.mu
         forward = self.forward
 
